@@ -129,9 +129,16 @@ theorem filter_ng_map {ren : List (Nat × Nat)} (hr : renOk ren = true) (xs : Li
   intro x _
   simp only [Function.comp, rn_isGhost hr]
 
-/-- acq/rel events never mention a ghost lock -/
-def GhostFree (tr : List Ev) : Prop :=
-  ∀ e ∈ tr, (∀ l, e = .acq l → isGhost l = false) ∧ (∀ l, e = .rel l → isGhost l = false)
+/-- The lock an event operates on (directly or through a pile). -/
+def evLock : Ev → Option Nat
+  | .acq l => some l
+  | .rel l => some l
+  | .pacq _ l => some l
+  | .prel _ l => some l
+  | .need _ => none
+
+/-- acq/rel events (plain or through a pile) never mention a ghost lock -/
+def GhostFree (tr : List Ev) : Prop := ∀ e ∈ tr, ∀ l, evLock e = some l → isGhost l = false
 
 theorem ghostFree_nil : GhostFree [] := by intro e he; cases he
 
@@ -142,53 +149,57 @@ theorem ghostFree_append {t1 t2 : List Ev} (h1 : GhostFree t1) (h2 : GhostFree t
   · exact h1 e h
   · exact h2 e h
 
-theorem ghostFree_acq {l : Nat} (hl : isGhost l = false) : GhostFree [.acq l] := by
-  intro e he
+theorem ghostFree_single {e : Ev} (h : ∀ l, evLock e = some l → isGhost l = false) :
+    GhostFree [e] := by
+  intro e' he
   rw [List.mem_singleton] at he; subst he
-  exact ⟨fun l' h => (by cases h; exact hl), fun l' h => (by cases h)⟩
+  exact h
 
-theorem ghostFree_rel {l : Nat} (hl : isGhost l = false) : GhostFree [.rel l] := by
-  intro e he
-  rw [List.mem_singleton] at he; subst he
-  exact ⟨fun l' h => (by cases h), fun l' h => (by cases h; exact hl)⟩
+theorem ghostFree_acq {l : Nat} (hl : isGhost l = false) : GhostFree [.acq l] :=
+  ghostFree_single (fun l' h => by simp only [evLock, Option.some.injEq] at h; subst h; exact hl)
 
-theorem ghostFree_need (cs : List Nat) : GhostFree [.need cs] := by
-  intro e he
-  rw [List.mem_singleton] at he; subst he
-  exact ⟨fun l' h => (by cases h), fun l' h => (by cases h)⟩
+theorem ghostFree_rel {l : Nat} (hl : isGhost l = false) : GhostFree [.rel l] :=
+  ghostFree_single (fun l' h => by simp only [evLock, Option.some.injEq] at h; subst h; exact hl)
 
-theorem ghostFree_rels {xs : List Nat} (hx : ∀ l ∈ xs, isGhost l = false) :
-    GhostFree (xs.map Ev.rel) := by
+theorem ghostFree_pacq {p l : Nat} (hl : isGhost l = false) : GhostFree [.pacq p l] :=
+  ghostFree_single (fun l' h => by simp only [evLock, Option.some.injEq] at h; subst h; exact hl)
+
+theorem ghostFree_prel {p l : Nat} (hl : isGhost l = false) : GhostFree [.prel p l] :=
+  ghostFree_single (fun l' h => by simp only [evLock, Option.some.injEq] at h; subst h; exact hl)
+
+theorem ghostFree_need (cs : List Nat) : GhostFree [.need cs] :=
+  ghostFree_single (fun l' h => by simp only [evLock] at h; cases h)
+
+theorem ghostFree_prels (p : Nat) {xs : List Nat} (hx : ∀ l ∈ xs, isGhost l = false) :
+    GhostFree (xs.map (Ev.prel p)) := by
   intro e he
   obtain ⟨l, hl, rfl⟩ := List.mem_map.mp he
-  exact ⟨fun l' h => (by cases h), fun l' h => (by cases h; exact hx l hl)⟩
+  intro l' h
+  simp only [evLock, Option.some.injEq] at h
+  subst h; exact hx l hl
 
 theorem ghostFree_tail {e : Ev} {t : List Ev} (h : GhostFree (e :: t)) : GhostFree t :=
   fun x hx => h x (List.mem_cons_of_mem _ hx)
 
-theorem ghostFree_head_acq {l : Nat} {t : List Ev} (h : GhostFree (.acq l :: t)) :
-    isGhost l = false := (h _ List.mem_cons_self).1 l rfl
+theorem ghostFree_head {e : Ev} {l : Nat} {t : List Ev} (h : GhostFree (e :: t))
+    (hl : evLock e = some l) : isGhost l = false := h e List.mem_cons_self l hl
 
-theorem ghostFree_head_rel {l : Nat} {t : List Ev} (h : GhostFree (.rel l :: t)) :
-    isGhost l = false := (h _ List.mem_cons_self).2 l rfl
+theorem evLock_rnEv (ren : List (Nat × Nat)) (e : Ev) :
+    evLock (rnEv ren e) = (evLock e).map (rn ren) := by
+  cases e <;> rfl
 
 theorem ghostFree_rename {ren : List (Nat × Nat)} (hr : renOk ren = true) {t : List Ev}
     (h : GhostFree t) : GhostFree (t.map (rnEv ren)) := by
-  intro e he
+  intro e he l hl
   obtain ⟨e0, he0, rfl⟩ := List.mem_map.mp he
-  have h0 := h e0 he0
-  cases e0 with
-  | acq l0 =>
-    refine ⟨fun l hl => ?_, fun l hl => (by simp [rnEv] at hl)⟩
-    simp only [rnEv, Ev.acq.injEq] at hl
+  rw [evLock_rnEv] at hl
+  cases h0 : evLock e0 with
+  | none => rw [h0] at hl; cases hl
+  | some l0 =>
+    rw [h0] at hl
+    simp only [Option.map_some, Option.some.injEq] at hl
     subst hl
-    rw [rn_isGhost hr]; exact h0.1 l0 rfl
-  | rel l0 =>
-    refine ⟨fun l hl => (by simp [rnEv] at hl), fun l hl => ?_⟩
-    simp only [rnEv, Ev.rel.injEq] at hl
-    subst hl
-    rw [rn_isGhost hr]; exact h0.2 l0 rfl
-  | need cs => exact ⟨fun l hl => (by simp [rnEv] at hl), fun l hl => (by simp [rnEv] at hl)⟩
+    rw [rn_isGhost hr]; exact h e0 he0 l0 h0
 
 /-! ## Replay facts -/
 
@@ -217,6 +228,20 @@ theorem run_frame : ∀ (t : List Ev) (h1 h1' h2 fr : List Nat),
     simp only [run, stepH] at e ⊢
     exact run_frame t (l :: h1) h1' (l :: h2) fr e (List.Perm.cons l p)
   | .rel l :: t, h1, h1', h2, fr, e, p => by
+    simp only [run, stepH] at e ⊢
+    by_cases hc : h1.contains l = true
+    · rw [if_pos hc] at e
+      have hm : l ∈ h1 := List.contains_iff_mem.mp hc
+      have hm2 : l ∈ h2 := p.mem_iff.mpr (List.mem_append_left fr hm)
+      rw [if_pos (List.contains_iff_mem.mpr hm2)]
+      refine run_frame t (h1.erase l) h1' (h2.erase l) fr e ?_
+      have := List.Perm.erase l p
+      rwa [List.erase_append_left fr hm] at this
+    · rw [if_neg hc] at e; cases e
+  | .pacq _ l :: t, h1, h1', h2, fr, e, p => by
+    simp only [run, stepH] at e ⊢
+    exact run_frame t (l :: h1) h1' (l :: h2) fr e (List.Perm.cons l p)
+  | .prel _ l :: t, h1, h1', h2, fr, e, p => by
     simp only [run, stepH] at e ⊢
     by_cases hc : h1.contains l = true
     · rw [if_pos hc] at e
@@ -272,6 +297,20 @@ theorem run_rename (ren : List (Nat × Nat)) (hr : renOk ren = true) :
       obtain ⟨g2, e2, p2⟩ := run_perm e1 (map_erase_perm (rn ren) hm)
       exact ⟨g2, e2, p2.trans p1⟩
     · rw [if_neg hc] at e; cases e
+  | .pacq _ l :: t, h, h', e => by
+    simp only [run, stepH, List.map_cons, rnEv] at e ⊢
+    exact run_rename ren hr t (l :: h) h' e
+  | .prel _ l :: t, h, h', e => by
+    simp only [run, stepH, List.map_cons, rnEv] at e ⊢
+    by_cases hc : h.contains l = true
+    · rw [if_pos hc] at e
+      have hm : l ∈ h := List.contains_iff_mem.mp hc
+      have hm2 : rn ren l ∈ h.map (rn ren) := List.mem_map.mpr ⟨l, hm, rfl⟩
+      rw [if_pos (List.contains_iff_mem.mpr hm2)]
+      obtain ⟨g1, e1, p1⟩ := run_rename ren hr t (h.erase l) h' e
+      obtain ⟨g2, e2, p2⟩ := run_perm e1 (map_erase_perm (rn ren) hm)
+      exact ⟨g2, e2, p2.trans p1⟩
+    · rw [if_neg hc] at e; cases e
   | .need cs :: t, h, h', e => by
     simp only [run, stepH, List.map_cons, rnEv] at e ⊢
     by_cases hc : holdsClass h cs = true
@@ -294,7 +333,7 @@ theorem run_cover {G F : List Nat} (hG : ∀ g ∈ G, isGhost g = true)
     exact ⟨A, h2, hA, p1, rfl, p2⟩
   | .acq l :: t, A, h1, h2, h1', gf, hA, p1, p2, e => by
     simp only [run, stepH] at e ⊢
-    have hl := ghostFree_head_acq gf
+    have hl : isGhost l = false := ghostFree_head gf rfl
     refine run_cover hG hcov t (l :: A) (l :: h1) (l :: h2) h1' (ghostFree_tail gf) ?_
       (List.Perm.cons l p1) (List.Perm.cons l p2) e
     intro a ha
@@ -303,7 +342,35 @@ theorem run_cover {G F : List Nat} (hG : ∀ g ∈ G, isGhost g = true)
     · exact hA a ha
   | .rel l :: t, A, h1, h2, h1', gf, hA, p1, p2, e => by
     simp only [run, stepH] at e ⊢
-    have hl := ghostFree_head_rel gf
+    have hl : isGhost l = false := ghostFree_head gf rfl
+    by_cases hc : h1.contains l = true
+    · rw [if_pos hc] at e
+      have hm1 : l ∈ A ++ G := p1.mem_iff.mp (List.contains_iff_mem.mp hc)
+      have hmA : l ∈ A := by
+        rcases List.mem_append.mp hm1 with h | h
+        · exact h
+        · have := hG l h; rw [hl] at this; cases this
+      have hm2 : l ∈ h2 := p2.mem_iff.mpr (List.mem_append_left F hmA)
+      rw [if_pos (List.contains_iff_mem.mpr hm2)]
+      refine run_cover hG hcov t (A.erase l) (h1.erase l) (h2.erase l) h1' (ghostFree_tail gf)
+        (fun a ha => hA a (List.mem_of_mem_erase ha)) ?_ ?_ e
+      · have := List.Perm.erase l p1
+        rwa [List.erase_append_left G hmA] at this
+      · have := List.Perm.erase l p2
+        rwa [List.erase_append_left F hmA] at this
+    · rw [if_neg hc] at e; cases e
+  | .pacq _ l :: t, A, h1, h2, h1', gf, hA, p1, p2, e => by
+    simp only [run, stepH] at e ⊢
+    have hl : isGhost l = false := ghostFree_head gf rfl
+    refine run_cover hG hcov t (l :: A) (l :: h1) (l :: h2) h1' (ghostFree_tail gf) ?_
+      (List.Perm.cons l p1) (List.Perm.cons l p2) e
+    intro a ha
+    rcases List.mem_cons.mp ha with rfl | ha
+    · exact hl
+    · exact hA a ha
+  | .prel _ l :: t, A, h1, h2, h1', gf, hA, p1, p2, e => by
+    simp only [run, stepH] at e ⊢
+    have hl : isGhost l = false := ghostFree_head gf rfl
     by_cases hc : h1.contains l = true
     · rw [if_pos hc] at e
       have hm1 : l ∈ A ++ G := p1.mem_iff.mp (List.contains_iff_mem.mp hc)
@@ -381,12 +448,13 @@ theorem call_replay {ren : List (Nat × Nat)} (hr : renOk ren = true)
   rw [f1, filter_ng_map hr] at f2
   exact f2
 
-theorem run_rels_eq_removeAll : ∀ (xs h : List Nat), run h (xs.map Ev.rel) = removeAll h xs
+theorem run_prels_eq_removeAll (p : Nat) :
+    ∀ (xs h : List Nat), run h (xs.map (Ev.prel p)) = removeAll h xs
   | [], h => rfl
   | x :: xs, h => by
     simp only [List.map_cons, run, stepH, removeAll]
     by_cases hc : h.contains x = true
-    · rw [if_pos hc, if_pos hc]; exact run_rels_eq_removeAll xs _
+    · rw [if_pos hc, if_pos hc]; exact run_prels_eq_removeAll p xs _
     · rw [if_neg hc, if_neg hc]
 
 /-! ## Membership in the checker's outcome sets -/
@@ -597,7 +665,7 @@ theorem sim_pileLock (p l : Nat) : Sim sig C (.pileLock p l) := by
   · rw [if_neg hg] at he
     cases he
     have hg' := eq_false_of_ne_true hg
-    refine Or.inr ⟨ghostFree_acq hg', pilesOK_set hk p ?_, l :: h, insertS l ha, rfl,
+    refine Or.inr ⟨ghostFree_pacq hg', pilesOK_set hk p ?_, l :: h, insertS l ha, rfl,
       List.mem_singleton.mpr rfl, (List.Perm.cons l hp).trans (insertS_perm l ha).symm⟩
     intro x hx
     rcases List.mem_cons.mp ((insertS_perm l _).mem_iff.mp hx) with rfl | hx
@@ -606,6 +674,13 @@ theorem sim_pileLock (p l : Nat) : Sim sig C (.pileLock p l) := by
 
 theorem run_rel_perm {h ha : List Nat} {l : Nat} (hp : h.Perm ha) (hc : ha.contains l = true) :
     run h [.rel l] = some (h.erase l) ∧ (h.erase l).Perm (ha.erase l) := by
+  have hc' : h.contains l = true := by rw [contains_of_perm hp]; exact hc
+  simp only [run, stepH, if_pos hc']
+  exact ⟨trivial, List.Perm.erase l hp⟩
+
+theorem run_prel_perm {h ha : List Nat} {l : Nat} (p : Nat) (hp : h.Perm ha)
+    (hc : ha.contains l = true) :
+    run h [.prel p l] = some (h.erase l) ∧ (h.erase l).Perm (ha.erase l) := by
   have hc' : h.contains l = true := by rw [contains_of_perm hp]; exact hc
   simp only [run, stepH, if_pos hc']
   exact ⟨trivial, List.Perm.erase l hp⟩
@@ -639,8 +714,8 @@ theorem sim_pileUnlock (p l : Nat) : Sim sig C (.pileUnlock p l) := by
       by_cases hc : ha.contains l = true
       · rw [if_pos hc] at he
         cases he
-        obtain ⟨r1, p1⟩ := run_rel_perm hp hc
-        refine Or.inr ⟨ghostFree_rel (eq_false_of_ne_true hg), pilesOK_set hk p ?_,
+        obtain ⟨r1, p1⟩ := run_prel_perm p hp hc
+        refine Or.inr ⟨ghostFree_prel (eq_false_of_ne_true hg), pilesOK_set hk p ?_,
           h.erase l, ha.erase l, r1, List.mem_singleton.mpr rfl, p1⟩
         exact fun x hx => pilesOK_get hk p x (List.mem_of_mem_erase hx)
       · rw [if_neg hc] at he; cases he
@@ -654,10 +729,10 @@ theorem sim_pileUnlockAll (p : Nat) : Sim sig C (.pileUnlockAll p) := by
   split at he
   · rename_i hr heq
     cases he
-    have e1 : run ha ((getP c.piles p).map Ev.rel) = some hr := by
-      rw [run_rels_eq_removeAll]; exact heq
+    have e1 : run ha ((getP c.piles p).map (Ev.prel p)) = some hr := by
+      rw [run_prels_eq_removeAll]; exact heq
     obtain ⟨h2, e2, p2⟩ := run_perm e1 hp
-    refine Or.inr ⟨ghostFree_rels (pilesOK_get hk p), pilesOK_set hk p ?_, h2, hr, e2,
+    refine Or.inr ⟨ghostFree_prels p (pilesOK_get hk p), pilesOK_set hk p ?_, h2, hr, e2,
       List.mem_singleton.mpr rfl, p2⟩
     intro x hx; cases hx
   · cases he
@@ -958,12 +1033,38 @@ theorem checker_sound_ghostFree (sig : Sig) (prog : Prog) (hc : consistent sig p
 
 /-! ## Counting corollary -/
 
-def acqs (l : Nat) (tr : List Ev) : Nat := tr.count (.acq l)
-def rels (l : Nat) (tr : List Ev) : Nat := tr.count (.rel l)
+/-- event `e` acquires lock `l` (directly or through a pile) -/
+def isAcq (l : Nat) : Ev → Bool
+  | .acq k => k == l
+  | .pacq _ k => k == l
+  | _ => false
+
+/-- event `e` releases lock `l` (directly or through a pile) -/
+def isRel (l : Nat) : Ev → Bool
+  | .rel k => k == l
+  | .prel _ k => k == l
+  | _ => false
+
+def acqs (l : Nat) (tr : List Ev) : Nat := tr.countP (isAcq l)
+def rels (l : Nat) (tr : List Ev) : Nat := tr.countP (isRel l)
 
 /-- no prefix of the trace releases `l` more often than it was held initially plus acquired -/
 def NeverUnderflows (h : List Nat) (tr : List Ev) : Prop :=
   ∀ p, p <+: tr → ∀ l, rels l p ≤ h.count l + acqs l p
+
+theorem count_acq_step (k l : Nat) (h : List Nat) :
+    (k :: h).count l = h.count l + (if (k == l) = true then 1 else 0) := List.count_cons
+
+theorem count_rel_step {k : Nat} (l : Nat) {h : List Nat} (hm : k ∈ h) :
+    (h.erase k).count l + (if (k == l) = true then 1 else 0) = h.count l := by
+  by_cases hk : k = l
+  · subst hk
+    have hpos : 0 < h.count k := List.count_pos_iff.mpr hm
+    rw [List.count_erase_self]
+    simp; omega
+  · have hne : ¬ (l = k) := fun h => hk h.symm
+    rw [List.count_erase_of_ne hne]
+    simp [hk]
 
 theorem run_count : ∀ (tr : List Ev) (h h' : List Nat), run h tr = some h' →
     ∀ l, h'.count l + rels l tr = h.count l + acqs l tr
@@ -973,33 +1074,41 @@ theorem run_count : ∀ (tr : List Ev) (h h' : List Nat), run h tr = some h' →
   | .acq k :: t, h, h', e, l => by
     simp only [run, stepH] at e
     have ih := run_count t (k :: h) h' e l
-    simp only [rels, acqs, List.count_cons] at ih ⊢
-    by_cases hk : k = l
-    · subst hk; simp at ih ⊢; omega
-    · simp [hk] at ih ⊢; omega
+    rw [count_acq_step] at ih
+    by_cases hk : k = l <;>
+      simp [hk, rels, acqs, isAcq, isRel] at ih ⊢ <;> omega
+  | .pacq _ k :: t, h, h', e, l => by
+    simp only [run, stepH] at e
+    have ih := run_count t (k :: h) h' e l
+    rw [count_acq_step] at ih
+    by_cases hk : k = l <;>
+      simp [hk, rels, acqs, isAcq, isRel] at ih ⊢ <;> omega
   | .rel k :: t, h, h', e, l => by
     simp only [run, stepH] at e
     by_cases hc : h.contains k = true
     · rw [if_pos hc] at e
       have ih := run_count t (h.erase k) h' e l
-      have hm : k ∈ h := List.contains_iff_mem.mp hc
-      simp only [rels, acqs, List.count_cons] at ih ⊢
-      by_cases hk : k = l
-      · subst hk
-        have hpos : 0 < h.count k := List.count_pos_iff.mpr hm
-        rw [List.count_erase_self] at ih
-        simp at ih ⊢; omega
-      · have hne : ¬ (l = k) := fun h => hk h.symm
-        rw [List.count_erase_of_ne hne] at ih
-        simp [hk] at ih ⊢; omega
+      have hm := count_rel_step l (List.contains_iff_mem.mp hc)
+      by_cases hk : k = l <;>
+        simp [hk, rels, acqs, isAcq, isRel] at ih hm ⊢ <;> omega
+    · rw [if_neg hc] at e; cases e
+  | .prel _ k :: t, h, h', e, l => by
+    simp only [run, stepH] at e
+    by_cases hc : h.contains k = true
+    · rw [if_pos hc] at e
+      have ih := run_count t (h.erase k) h' e l
+      have hm := count_rel_step l (List.contains_iff_mem.mp hc)
+      by_cases hk : k = l <;>
+        simp [hk, rels, acqs, isAcq, isRel] at ih hm ⊢ <;> omega
     · rw [if_neg hc] at e; cases e
   | .need cs :: t, h, h', e, l => by
     simp only [run, stepH] at e
     by_cases hc : holdsClass h cs = true
     · rw [if_pos hc] at e
       have ih := run_count t h h' e l
-      simp only [rels, acqs, List.count_cons] at ih ⊢
-      simp at ih ⊢; omega
+      simp only [rels, acqs, List.countP_cons, isAcq, isRel] at ih ⊢
+      simp only [Bool.false_eq_true, if_false] at ih ⊢
+      omega
     · rw [if_neg hc] at e; cases e
 
 theorem run_counts (h h' : List Nat) (tr : List Ev) (hr : run h tr = some h') :
